@@ -164,6 +164,33 @@ var Ops = []Op{
 		err4 := bad.UnmarshalBinary([]byte{1, 0x20, 0x41, 0x7f, 0})
 		return fmt.Sprintf("%x %v %v %d %x %v %v", b, err, err2, len(back), d, err3, err4 != nil)
 	}},
+	{"qos-marshal-failing-then-ok", func(s int) string {
+		// error paths first (a flow label above the serialiser's limit, an IPv4 component with a 16-octet address),
+		// then a valid marshal: whatever the failing calls left behind must not leak into the valid one
+		bad1 := nasType.QoSRules{{Identifier: 1, Operation: 1, PacketFilterList: nasType.PacketFilterList{{Identifier: 1, Direction: 1,
+			Components: nasType.PacketFilterComponentList{&nasType.PacketFilterProtocolIdentifier{Value: uint8(s)}, &nasType.PacketFilterFlowLabel{Label: 1 << 19}}}}}}
+		_, e1 := bad1.MarshalBinary()
+		bad2 := nasType.QoSRules{{Identifier: 2, Operation: 1, PacketFilterList: nasType.PacketFilterList{{Identifier: 1, Direction: 2,
+			Components: nasType.PacketFilterComponentList{&nasType.PacketFilterIPv4RemoteAddress{Address: net.ParseIP("10.0.0.1"), Mask: net.IPMask{255, 255, 255, 0}}}}}}}
+		_, e2 := bad2.MarshalBinary()
+		good := nasType.QoSRules{{Identifier: uint8(s), Operation: 1, Precedence: 9, QFI: 5, PacketFilterList: nasType.PacketFilterList{{Identifier: 3, Direction: 3,
+			Components: nasType.PacketFilterComponentList{&nasType.PacketFilterSingleRemotePort{Value: uint16(4000 + s)}, &nasType.PacketFilterProtocolIdentifier{Value: 17}}}}}}
+		b, e3 := good.MarshalBinary()
+		return fmt.Sprintf("%v %v %x %v", e1 != nil, e2 != nil, b, e3)
+	}},
+	{"pco-bad-ip-then-ok", func(s int) string {
+		p := nasConvert.NewProtocolConfigurationOptions()
+		e1 := p.AddDNSServerIPv4Address(net.ParseIP("2001:db8::1"))
+		e2 := p.AddDNSServerIPv6Address(nil)
+		e3 := p.AddPCSCFIPv4Address(net.IPv4(10, 0, byte(s), 1))
+		return fmt.Sprintf("%v %v %v %x", e1 != nil, e2 != nil, e3, p.Marshal())
+	}},
+	{"mac-and-encrypt-invalid-then-valid", func(s int) string {
+		_, e1 := security.NASMacCalculate(9, key(s), 1, 0, 0, msg(s, 8))
+		_, e2 := security.NASMacCalculate(2, key(s), 1, 0, 2, msg(s, 8))
+		_, e3 := security.NASMacCalculate(1, key(s), 1, 0, 0, nil)
+		return fmt.Sprintf("%v %v %v ", e1 != nil, e2 != nil, e3 != nil) + mac(1, s, 12) + enc(3, s, 9)
+	}},
 	{"ue-policy", func(s int) string {
 		var part uePolicyContainer.UEPolicyPart
 		part.UEPolicyPartType.SetPartType(1)
